@@ -1,6 +1,6 @@
-SPECIFICATION Spec
+SPECIFICATION WitSpec
 CONSTANTS
-  Interval = 8
+  Interval = 16
   MaxLen = 3
   Thresholds = {0, 2}
   AnswerDelays = {0}
@@ -9,4 +9,10 @@ CONSTANTS
   CtxSlots <- WitCtxSlots
   EnvMaxLen = 3
   EnvProduct = FALSE
+  StallKinds <- AllStalls
+  MaxStalls = 1
+  StallMaxLen = 3
+  EstModes <- AllEst
+  EstMaxLen = 2
 CHECK_DEADLOCK FALSE
+INVARIANT WitMark
